@@ -140,4 +140,31 @@ CHECKS = {
                         "pods named S-<digits> with a non-canonical number (S-01, S-99999999999) are ambiguous under 'name is S-<ordinal>': generated, not judged",
                         "re-using an existing identical-data revision whose name collides (C08) is not counted as 'using a foreign revision'"] + COMMON_ASSUMPTIONS,
     },
+    "C11": {
+        "level": "exploration",
+        "rule": "case = C03-style world (constructed pods incl. adoptable orphans, orphan ControllerRevisions, faults, stale caches; no mid-reconcile "
+                "interference) in whose history a flag is raised before op i - a deletion timestamp, or paused-reconcile=true lowered again before "
+                "op j. Oracle while the snapshot shows the flag: paused => zero writes on every resource; deleting => no write on pods or claims, no "
+                "owner-reference patch on pods or ControllerRevisions. Pause only: a never-paused twin (clone taken when the flag is raised) runs the "
+                "same environment history; both are closed by the fair schedule, must satisfy the C02 fixed-point oracle and agree on the "
+                "spec-determined projection (ordinals, readiness, status.replicas/readyReplicas, update-revision template, images of pods at or "
+                "above the partition). Non-trivial = a clone reconciled at the moment the flag is raised would have written something and at least "
+                "one reconcile saw the flag; distinct = distinct case",
+        "legs": [{"test": "TestC11", "quick": {"checks": 2500}, "thorough": {"checks": 300000, "shards": 16}}],
+        "floors": {"pause:flag-raised-while-work-pending": 0.1, "deletion:flag-raised-while-work-pending": 0.1, "pause:twin-compared": 0.2},
+        "assumptions": ["values of paused-reconcile other than \"true\" are generated nowhere: the statement is silent about them"] + COMMON_ASSUMPTIONS,
+    },
+    "C13": {
+        "level": "exploration",
+        "rule": "case = world with limit in {0,1,2,3,10}, 1-3 real revisions + template edits, up to 5 extra revisions crossing owner (own / orphan / "
+                "same-named set with another UID / other kind / second set) x labels (selector / marker / both / none) x equal numbers, orphan "
+                "revisions, pods pinned to arbitrary revisions, optionally a deleting set; <= 14 ops. Oracle per reconcile: every deleted revision is "
+                "controlled by this set and is neither current, update nor named by a member pod; deletions happen only when more than limit unused "
+                "own revisions exist; in a fault-free reconcile the deleted names are exactly the (unused - limit) oldest by (revision, creation "
+                "time, name), none twice. Non-trivial = a reconcile trimmed or saw more unused own revisions than the limit, or a doubly-listed / "
+                "foreign revision is present; distinct = distinct case",
+        "legs": [{"test": "TestC13", "quick": {"checks": 4000}, "thorough": {"checks": 400000, "shards": 16}}],
+        "floors": {"doubly-listed-or-foreign-revision-present": 0.2, "deleting-set": 0.05},
+        "assumptions": ["a revision the set owns but that carries neither selector labels nor the marker cannot be found by a label query and is not judged"] + COMMON_ASSUMPTIONS,
+    },
 }
